@@ -33,7 +33,7 @@ LEVEL = "model_checking"
 # Trace_CSeg.cfg holds the deviation switches in the position of the code today
 # (DRIFT lines appear when the code moves); Trace_CSeg_conforming.cfg holds the
 # repaired positions.  A fix: commit switches the default here (or the .cfg).
-TRACE_CFG = os.environ.get("VERIF_C10_TRACE_CFG", "Trace_CSeg")
+TRACE_CFG = os.environ.get("VERIF_C10_TRACE_CFG", "Trace_CSeg_conforming")
 RULE = ("one case = one byte string handed to one decoder with one (dtype, channels, shape[, block]) "
         "request; non-trivial when the bytes are not accepted as-is, i.e. the oracle says malformed or "
         "the decoder raised; distinct = distinct (codec, request, sha1 of the bytes)")
